@@ -165,6 +165,21 @@ fn v_txin_cbor(seed: u32) -> Vec<u8> {
 fn v_txin_json(seed: u32) -> Vec<u8> {
     lib_tx(seed).get_input(0).and_then(|i| i.to_json_string().ok()).unwrap_or_default().into_bytes()
 }
+fn v_interp(seed: u32) -> Interpreter {
+    // an interpreter a few steps into a script with a conditional, with and without a transaction context
+    let tx = lib_tx(seed);
+    let mut i = if seed % 2 == 0 { Interpreter::from_script(&Script::from_bytes(&hex::decode("5152935163ab5467556875").unwrap()).unwrap()) } else { Interpreter::from_transaction(&tx, 0).unwrap_or_else(|_| Interpreter::from_script(&Script::default())) };
+    for _ in 0..(seed % 5) {
+        let _ = i.next();
+    }
+    i
+}
+fn v_interp_json(seed: u32) -> Vec<u8> {
+    serde_json::to_vec(&v_interp(seed)).unwrap_or_default()
+}
+fn v_txout_json(seed: u32) -> Vec<u8> {
+    lib_tx(seed + 3).get_output(0).and_then(|o| o.to_json_string().ok()).unwrap_or_default().into_bytes()
+}
 fn v_script_json(seed: u32) -> Vec<u8> {
     serde_json::to_vec(&Script::from_bytes(&v_script(seed)).unwrap()).unwrap_or_default()
 }
@@ -239,8 +254,8 @@ pub fn decoders() -> Vec<Decoder> {
         d!("PrivateKey::from_bytes", Feed::Bin, v_priv, |b, _t| PrivateKey::from_bytes(b)),
         d!("PublicKey::from_bytes", Feed::Bin, v_pub, |b, _t| PublicKey::from_bytes(b).map(|k| (k.to_decompressed().is_ok(), k.to_compressed().is_ok(), k.to_p2pkh_address().is_ok()))),
         d!("PublicKey::from_hex", Feed::Hex, v_pub, |_b, t| PublicKey::from_hex(t)),
-        d!("ExtendedPrivateKey::from_string", Feed::Text, v_xprv, |_b, t| ExtendedPrivateKey::from_string(t).map(|k| k.to_string().is_ok())),
-        d!("ExtendedPublicKey::from_string", Feed::Text, v_xpub, |_b, t| ExtendedPublicKey::from_string(t).map(|k| k.to_string().is_ok())),
+        d!("ExtendedPrivateKey::from_string", Feed::Text, v_xprv, |_b, t| ExtendedPrivateKey::from_string(t).map(|k| (k.to_string().is_ok(), k.derive_from_path("m/0").is_ok()))),
+        d!("ExtendedPublicKey::from_string", Feed::Text, v_xpub, |_b, t| ExtendedPublicKey::from_string(t).map(|k| (k.to_string().is_ok(), k.derive_from_path("m/0").is_ok()))),
         d!("P2PKHAddress::from_string", Feed::Text, v_addr, |_b, t| P2PKHAddress::from_string(t)),
         d!("P2PKHAddress::from_pubkey_hash", Feed::Bin, v_hash20, |b, _t| P2PKHAddress::from_pubkey_hash(b)),
         d!("Signature::from_der", Feed::Bin, v_der, |b, _t| Signature::from_der(b)),
@@ -255,7 +270,8 @@ pub fn decoders() -> Vec<Decoder> {
         d!("TxIn::from_compact_bytes", Feed::Bin, v_txin_cbor, |b, _t| TxIn::from_compact_bytes(b)),
         d!("TxIn::from_compact_hex", Feed::Hex, v_txin_cbor, |_b, t| TxIn::from_compact_hex(t)),
         d!("serde_json TxIn", Feed::Text, v_txin_json, |_b, t| serde_json::from_str::<TxIn>(t).map(|_| ())),
-        d!("serde_json TxOut", Feed::Text, v_txin_json, |_b, t| serde_json::from_str::<TxOut>(t).map(|_| ())),
+        d!("serde_json TxOut", Feed::Text, v_txout_json, |_b, t| serde_json::from_str::<TxOut>(t).map(|_| ())),
+        d!("serde_json Interpreter", Feed::Text, v_interp_json, |_b, t| serde_json::from_str::<Interpreter>(t).map(|_| ())),
         d!("serde_json Script", Feed::Text, v_script_json, |_b, t| serde_json::from_str::<Script>(t).map(|_| ())),
         d!("serde_json PublicKey", Feed::Text, v_pubkey_json, |_b, t| serde_json::from_str::<PublicKey>(t).map(|_| ())),
         d!("serde_json P2PKHAddress", Feed::Text, v_addr_json, |_b, t| serde_json::from_str::<P2PKHAddress>(t).map(|_| ())),
@@ -290,6 +306,10 @@ pub enum Kind {
     /// `depth` nested conditionals (script-shaped input), optionally unclosed; `via_else`: each block is nested in
     /// the ELSE branch of the previous one (IF ELSE IF ELSE … ENDIF ENDIF) instead of its IF branch
     Nest { depth: u32, closed: bool, #[serde(default)] via_else: bool },
+    /// CBOR decoders: a document cut off inside `levels` nested array (or map) heads at a script position, each declaring `count` elements
+    CborCounts { levels: u16, count: u64, maps: bool, array_form: bool },
+    /// a valid encoding followed by `times` copies of a short unit (a path component, a list element, a token)
+    Repeat { seed: u32, #[serde(with = "crate::gen::hexser")] unit: Vec<u8>, times: u32 },
     /// valid encoding repeated / extended with a long tail
     Extend { seed: u32, tail: u32, byte: u8 },
     /// deeply nested JSON ('[' x depth) / CBOR (array-of-one header x depth) / ASM text
@@ -310,9 +330,42 @@ pub struct Case {
 
 /// bound: peak live bytes of one call <= A + K * input length
 pub const MEM_A: usize = 1024 * 1024;
-/// serde pre-allocates at most 1 MiB per collection from a declared CBOR length and ciborium limits nesting
-/// to 256 levels: a constant cap, not a declared-length allocation. CBOR decoders get this allowance on top.
-pub const MEM_CBOR_EXTRA: usize = 256 * 1024 * 1024;
+/// Known finding `cbor-declared-count-preallocation`: for every array / map head of a CBOR document serde's buffering
+/// visitor (the untagged ScriptBit) reserves min(declared count, 32768) elements of 32 bytes before reading any of them
+/// (maps: two per entry), at up to 256 nesting levels. `cbor_declared_reservation` is that sum for a given input.
+pub const CBOR_RESERVE_PER_ELEMENT: usize = 32;
+pub const CBOR_RESERVE_CAP_ELEMENTS: u64 = 32768;
+
+/// Tolerant walk over the heads of a CBOR byte string (string payloads skipped): the bytes serde may reserve from
+/// declared array / map counts alone.
+pub fn cbor_declared_reservation(b: &[u8]) -> usize {
+    let mut i = 0usize;
+    let mut total = 0usize;
+    while i < b.len() {
+        let (major, info) = (b[i] >> 5, b[i] & 0x1f);
+        i += 1;
+        let arg: u64 = match info {
+            0..=23 => info as u64,
+            24..=27 => {
+                let n = 1usize << (info - 24);
+                if i + n > b.len() {
+                    break;
+                }
+                let v = b[i..i + n].iter().fold(0u64, |a, x| (a << 8) | *x as u64);
+                i += n;
+                v
+            }
+            _ => 0,
+        };
+        match major {
+            2 | 3 => i = i.saturating_add(arg.min(b.len() as u64) as usize),
+            4 => total += arg.min(CBOR_RESERVE_CAP_ELEMENTS) as usize * CBOR_RESERVE_PER_ELEMENT,
+            5 => total += arg.min(CBOR_RESERVE_CAP_ELEMENTS) as usize * CBOR_RESERVE_PER_ELEMENT * 2,
+            _ => {}
+        }
+    }
+    total
+}
 pub const MEM_K: usize = 1024;
 
 pub fn input_of(dec: &Decoder, kind: &Kind) -> (Vec<u8>, String) {
@@ -416,6 +469,52 @@ pub fn input_of(dec: &Decoder, kind: &Kind) -> (Vec<u8>, String) {
                 None => as_feed(v),
             }
         }
+        Kind::CborCounts { levels, count, maps, array_form } => {
+            fn head(major: u8, v: u64) -> Vec<u8> {
+                let m = major << 5;
+                match v {
+                    0..=23 => vec![m | v as u8],
+                    24..=0xff => vec![m | 24, v as u8],
+                    0x100..=0xffff => [vec![m | 25], (v as u16).to_be_bytes().to_vec()].concat(),
+                    0x1_0000..=0xffff_ffff => [vec![m | 26], (v as u32).to_be_bytes().to_vec()].concat(),
+                    _ => [vec![m | 27], v.to_be_bytes().to_vec()].concat(),
+                }
+            }
+            let text = |t: &str| [head(3, t.len() as u64), t.as_bytes().to_vec()].concat();
+            let mut v = vec![];
+            let txin_only = dec.name.starts_with("TxIn");
+            if !txin_only {
+                v.push(0xa4);
+                v.extend(text("version"));
+                v.extend(head(0, 1));
+                v.extend(text("inputs"));
+                v.extend(head(4, 1));
+            }
+            if *array_form {
+                // a struct may also be written as an array of its fields
+                v.push(0x86);
+                v.extend(text(&"00".repeat(32)));
+                v.extend(head(0, 0));
+            } else {
+                v.push(0xa4);
+                v.extend(text("prev_tx_id"));
+                v.extend(text(&"00".repeat(32)));
+                v.extend(text("vout"));
+                v.extend(head(0, 0));
+                v.extend(text("script_sig"));
+            }
+            for _ in 0..*levels {
+                v.extend(head(if *maps { 5 } else { 4 }, *count));
+            }
+            as_feed(v)
+        }
+        Kind::Repeat { seed, unit, times } => {
+            let mut v = (dec.valid)(*seed);
+            for _ in 0..*times {
+                v.extend_from_slice(unit);
+            }
+            as_feed(v)
+        }
         Kind::Extend { seed, tail, byte } => {
             let mut v = (dec.valid)(*seed);
             v.extend(std::iter::repeat(*byte).take(*tail as usize));
@@ -430,7 +529,7 @@ impl Property for C09 {
 
     fn rule() -> String {
         format!(
-            "{} decoding entry points (every public from_bytes / from_hex / from_string / from_wif / from_der / from_compact_bytes / from_compact_hex / from_json_string / from_asm_string / from_outpoint_bytes / from_chunks constructor, ECIES ciphertexts in both modes followed by decrypt, AES with key/IV/message of any length, the three digest entry points with digests of any length, serde JSON/CBOR entry points, derivation path text, seeds). Inputs: empty and all 1-byte inputs exhaustively, random bytes and text, every kind of prefix of generated valid encodings, byte-level mutations, any region overwritten by a compact-size integer in every form with extreme values (up to 2^64-1), transaction count/length fields substituted, long tails, Base58Check strings with a valid checksum over arbitrary and mutated payloads (incl. the empty payload), nested conditionals to depth 100 000. Oracle: the call returns (no panic - catch_unwind; no abort / stack overflow - supervised child with journal), and peak live heap of the call <= {} KiB + {} x input length (+ a constant serde pre-allocation allowance for the CBOR decoders; counting allocator). Non-trivial = a prefix / mutant / substitution of a valid encoding, or an input the decoder accepted... every case counts its decoder; distinct by hash of the serialised case.",
+            "{} decoding entry points (every public from_bytes / from_hex / from_string / from_wif / from_der / from_compact_bytes / from_compact_hex / from_json_string / from_asm_string / from_outpoint_bytes / from_chunks constructor, ECIES ciphertexts in both modes followed by decrypt, AES with key/IV/message of any length, the three digest entry points with digests of any length, serde JSON/CBOR entry points, derivation path text, seeds). Inputs: empty and all 1-byte inputs exhaustively, random bytes and text, every kind of prefix of generated valid encodings, byte-level mutations, any region overwritten by a compact-size integer in every form with extreme values (up to 2^64-1), transaction count/length fields substituted, long tails, Base58Check strings with a valid checksum over arbitrary and mutated payloads (incl. the empty payload), nested conditionals to depth 100 000. Oracle: the call returns (no panic - catch_unwind; no abort / stack overflow - supervised child with journal), and peak live heap of the call <= {} KiB + {} x input length (counting allocator; for the four CBOR entry points an excess that the counts declared by the document's array / map heads account for is the known finding cbor-declared-count-preallocation). Non-trivial = a prefix / mutant / substitution of a valid encoding, or an input the decoder accepted... every case counts its decoder; distinct by hash of the serialised case.",
             decoders().len(),
             MEM_A / 1024,
             MEM_K
@@ -439,7 +538,7 @@ impl Property for C09 {
 
     fn assumptions() -> Vec<String> {
         vec![
-            "memory bound: peak live heap of one call <= 1 MiB + 1024 x input length; the factor was calibrated on the unchanged tree (worst measured ratio of valid inputs < 256: 64-byte elements per one-byte opcode, cloned while nesting); the CBOR decoders get an extra constant 256 MiB because serde pre-allocates up to 1 MiB per collection from a declared length and ciborium limits nesting to 256 levels (a constant cap, not a declared-length allocation). Declared lengths from 2^32-1 upward, which the generators substitute, exceed every allowance or fail to allocate under the child's 4 GiB address-space limit (process death, attributed through the journal)".into(),
+            "memory bound: peak live heap of one call <= 1 MiB + 1024 x input length; the factor was calibrated on the unchanged tree (worst measured ratio of valid inputs < 256: 64-byte elements per one-byte opcode, cloned while nesting); the CBOR entry points exceed it for documents whose array / map heads declare large counts (known finding, attributed by re-computing what those heads let serde reserve). Declared lengths from 2^32-1 upward, which the generators substitute, exceed every allowance or fail to allocate under the child's 4 GiB address-space limit (process death, attributed through the journal)".into(),
             "text decoders receive the lossy UTF-8 rendering of generated bytes as well as generated ASCII text".into(),
         ]
     }
@@ -449,7 +548,7 @@ impl Property for C09 {
     }
 
     fn exhaustive_spaces(_tier: Tier) -> Vec<String> {
-        vec!["every decoder x the empty input and all 256 one-byte inputs".into(), "every decoder x every prefix of two valid encodings".into(), "Base58Check decoders x valid-checksum strings over payloads of every length 0..=90".into(), "script-shaped decoders x nesting depths up to 100 000".into()]
+        vec!["every decoder x the empty input and all 256 one-byte inputs".into(), "every decoder x every prefix of two valid encodings".into(), "Base58Check decoders x valid-checksum strings over payloads of every length 0..=90".into(), "script-shaped decoders x nesting depths up to 100 000".into(), "derivation paths of 1, 253..257, 300 and 1000 components; extended-key strings with every value 0..=255 of the depth byte (each then the receiver of a one-step path derivation)".into()]
     }
 
     fn exhaustive(tier: Tier, shard: usize, nshards: usize, f: &mut dyn FnMut(Case) -> bool) {
@@ -499,6 +598,41 @@ impl Property for C09 {
                     }
                 }
             }
+            if d.name.contains("compact") {
+                for levels in [1u16, 2, 64, 200, 253, 256] {
+                    for count in [16u64, 32768, u64::MAX] {
+                        idx += 1;
+                        if idx % nshards == shard && !f(Case { dec: di as u8, kind: Kind::CborCounts { levels, count, maps: false, array_form: false } }) {
+                            return;
+                        }
+                    }
+                }
+            }
+            // derivation paths around the depth limit of 255, and extended keys carrying every value of the depth byte
+            if d.name.ends_with("derive_from_path") {
+                for comps in [1usize, 253, 254, 255, 256, 257, 300, 1000] {
+                    for unit in ["/0", "/1'"] {
+                        idx += 1;
+                        let text = format!("m{}", unit.repeat(comps));
+                        if idx % nshards == shard && !f(Case { dec: di as u8, kind: Kind::Text(text) }) {
+                            return;
+                        }
+                    }
+                }
+            }
+            if matches!(d.name, "ExtendedPrivateKey::from_string" | "ExtendedPublicKey::from_string") {
+                let mut k = bip32::master(&[9u8; 32]).expect("master key");
+                if d.name.starts_with("ExtendedPublicKey") {
+                    k = bip32::neuter(&k);
+                }
+                for depth in 0..=255u8 {
+                    idx += 1;
+                    k.depth = depth;
+                    if idx % nshards == shard && !f(Case { dec: di as u8, kind: Kind::Text(bip32::to_string(&k)) }) {
+                        return;
+                    }
+                }
+            }
             if d.name.contains("Script") || d.name.starts_with("Transaction::from_bytes") || d.name.starts_with("TxOut") {
                 let depths: Vec<u32> = match tier {
                     Tier::Quick => vec![10, 600, 5_000, 100_000],
@@ -515,6 +649,27 @@ impl Property for C09 {
                     }
                 }
             }
+        }
+    }
+
+    fn known(case: &Case, f: &Failure) -> Option<&'static str> {
+        // memory of a CBOR entry point above the bound, explained by the counts its array / map heads declare
+        if !f.check.starts_with("memory:") {
+            return None;
+        }
+        let decs = decoders();
+        let d = &decs[(case.dec as usize) % decs.len()];
+        if !matches!(d.name, "Transaction::from_compact_bytes" | "Transaction::from_compact_hex" | "TxIn::from_compact_bytes" | "TxIn::from_compact_hex") {
+            return None;
+        }
+        let (bin, _text) = input_of(d, &case.kind);
+        let peak: usize = f.library.strip_prefix("peak ").and_then(|r| r.split(' ').next()).and_then(|n| n.parse().ok())?;
+        let reserved = cbor_declared_reservation(&bin);
+        // nothing beyond the bound except what the declared counts reserve (serde caps each at 1 MiB, ciborium the depth at 256)
+        if reserved > 0 && peak <= MEM_A + MEM_K * bin.len() + reserved && reserved <= 257 * 1024 * 1024 * 2 {
+            Some("cbor-declared-count-preallocation")
+        } else {
+            None
         }
     }
 
@@ -543,6 +698,8 @@ impl Property for C09 {
             8 => (any::<u32>(), any::<u16>(), big, 0u8..4).prop_map(|(seed, field, value, form)| Kind::Subst { seed, field, value, form }),
             1 => (1u32..2000, any::<bool>(), any::<bool>()).prop_map(|(depth, closed, via_else)| Kind::Nest { depth, closed, via_else }),
             2 => (any::<u32>(), prop_oneof![3 => 0u32..100, 1 => 100u32..70_000], any::<u8>()).prop_map(|(seed, tail, byte)| Kind::Extend { seed, tail, byte }),
+            1 => (prop_oneof![1u16..8, 8u16..300], prop_oneof![prop::sample::select(vec![1u64, 16, 1000, 32767, 32768, 65536, 1 << 32, u64::MAX]), any::<u64>()], any::<bool>(), any::<bool>()).prop_map(|(levels, count, maps, array_form)| Kind::CborCounts { levels, count, maps, array_form }),
+            2 => (any::<u32>(), prop_oneof![3 => prop::sample::select(vec![b"/0".to_vec(), b"/1'".to_vec(), b" 00".to_vec(), b" OP_1".to_vec(), b",0".to_vec(), vec![0x51], vec![0x01, 0x00], b"00".to_vec()]), 1 => prop::collection::vec(any::<u8>(), 1..4)], prop_oneof![3 => 0u32..300, 1 => 300u32..5000]).prop_map(|(seed, unit, times)| Kind::Repeat { seed, unit, times }),
             6 => prop::collection::vec(any::<u8>(), 0..90).prop_map(Kind::B58Check),
             4 => (any::<u32>(), prop::collection::vec(mutation(), 1..3)).prop_map(|(seed, muts)| Kind::B58Rewrap { seed, muts }),
         ];
@@ -562,9 +719,9 @@ impl Property for C09 {
         if let Err(p) = res {
             return Err(failure(&format!("total:{}", d.name), format!("{} on a {}-byte input {}", p, len, if d.feed == Feed::Bin { crate::props::common::short_hex(&bin) } else { format!("{:?}", clip(&text, 200)) }), "Ok or Err, no panic"));
         }
-        let bound = MEM_A + MEM_K * len + if d.name.contains("compact") { MEM_CBOR_EXTRA } else { 0 };
+        let bound = MEM_A + MEM_K * len;
         if stats.peak_over_baseline > bound {
-            return Err(failure(&format!("memory:{}", d.name), format!("peak {} bytes live (largest single request {}) for a {}-byte input {}", stats.peak_over_baseline, stats.max_request, len, if d.feed == Feed::Bin { crate::props::common::short_hex(&bin) } else { format!("{:?}", clip(&text, 120)) }), format!("at most {} = {} + {} x input length{}", bound, MEM_A, MEM_K, if d.name.contains("compact") { " + 256 MiB (serde/ciborium pre-allocation cap)" } else { "" })));
+            return Err(failure(&format!("memory:{}", d.name), format!("peak {} bytes live (largest single request {}) for a {}-byte input {}", stats.peak_over_baseline, stats.max_request, len, if d.feed == Feed::Bin { crate::props::common::short_hex(&bin) } else { format!("{:?}", clip(&text, 120)) }), format!("at most {} = {} + {} x input length", bound, MEM_A, MEM_K)));
         }
         // measured ratio, reported through labels (calibration aid)
         let ratio = stats.peak_over_baseline.saturating_sub(16 * 1024) / len.max(1);
@@ -579,6 +736,8 @@ impl Property for C09 {
             Kind::Overwrite { .. } | Kind::Subst { .. } => o.nt("length-field-substitution"),
             Kind::Nest { .. } => o.nt("nest"),
             Kind::Extend { .. } => o.nt("extended"),
+            Kind::Repeat { .. } => o.nt("repeated-unit"),
+            Kind::CborCounts { .. } => o.nt("cbor-declared-counts"),
             Kind::B58Check(_) | Kind::B58Rewrap { .. } => o.nt("valid-checksum-wrong-payload"),
             Kind::DeepDoc { .. } => o.nt("deeply-nested-document"),
         }
